@@ -156,11 +156,15 @@ CLAIMS['C19'] = dict(
          "every chain around every bond is listed, none twice; rough_uff.assign_bond_types and assign_angle_types, for term lists of any "
          "length: two terms get the same type number exactly when their UFF type sequences agree up to reversal, the coefficient line of a "
          "term's type is the one computed from the term's own sequence, type numbers are dense (modular over the contracts of typekey, "
-         "bond_params / angle_params, angle2lammpsdat). Dihedral typing (torsion counts, dropping of undefined torsions), renaming / "
+         "bond_params / angle_params, angle2lammpsdat); the key statements of rough_uff.assign_dihedral_types (block contracts, any dihedral, any "
+         "type assignment): a torsion is counted under its central bond j-k in either direction and over the full list (before the exclusion set "
+         "is applied), a dihedral's type key is its UFF sequence up to reversal followed by the count filed under its own central bond and is the "
+         "same for the dihedral listed backwards, and the exclusion set is applied through delete_if_all_in_set exactly when it holds at least "
+         "four atoms. The rest of dihedral typing (first-seen numbering, dropping of undefined torsions, coefficient strings), renaming / "
          "permutation invariance and the retyping tables are only checked with a stated bound: all labelled trees up to 5 nodes, rings, "
          "ring assemblies, a metal node, graphs mixing kept and dropped torsions, 4 type assignments, renamings with reversed terms, all 221 UFF types.",
     note="Assumed contracts: networkx Graph (nodes = endpoints, adj / neighbors = the distinct bonded atoms, edges = every bond once), itertools.combinations, "
-         "list.remove, double comprehension, list(dict.fromkeys(xs).keys()) + list.index, list += list. assign_dihedral_types is not under contract. "
+         "list.remove, double comprehension, list(dict.fromkeys(xs).keys()) + list.index, list += list. Of assign_dihedral_types only the count / key / exclusion statements are under contract; its deletion loop and numbering are bounded. "
          "Known finding: UFF types Du and Lw6+3 have no mass entry (retype raises).",
     technique='contract-based deductive verification (loop invariants with ghost state for the enumerations, modular typing proofs, z3) + bounded graph enumeration')
 CLAIMS['C12'] = dict(
